@@ -1,7 +1,7 @@
 """C18 — spherical conformal map: unit sphere, orientation kept, exact building blocks."""
 import numpy as np
 
-from .. import repo, core, gen, wire, capture
+from .. import repo, core, gen, wire, capture, extract
 from ..base import BaseCheck
 from lapy import TriaMesh, conformal
 
@@ -59,6 +59,9 @@ class Check(BaseCheck):
     trusted = ["SuperLU solves of the harmonic / quasi-conformal systems (complex) — assumed, monitored by residual", "scipy.optimize.minimize (L-BFGS-B): does "
                "not increase the objective — monitored", "orientation preservation of the harmonic and quasi-conformal steps is analytic: monitored (sphere volume > 0), not proved"]
     assumptions = ["PARTIAL (see trusted base); runs under the installed NumPy (finding F4 repaired)"]
+
+    def translate(self):
+        extract.gen_misc()
 
     def correspond(self, drv, stats):
         fails = []
